@@ -190,6 +190,11 @@ class Exec(StmtMixin):
                 self.check_normal(o)
             elif o.kind == "raise":
                 self.check_raise(o)
+            elif frag is not None and o.kind in ("continue", "break"):
+                # a fragment inside a loop of the real function may leave through the loop's `continue` / `break`: an end
+                # of the fragment like falling off it
+                n_normal += 1
+                self.check_normal(Out("fall", o.st))
             else:
                 raise Unsupported("%s outside loop" % o.kind)
         # canary: some path must reach a normal or exceptional end (otherwise every post is vacuous)
